@@ -47,6 +47,11 @@ IMPORTS = ("From Coq Require Import ZArith List Bool.\n"
            "From IPV8V Require Import lib.PyErr lib.Bytes gen.G07_consts model.M07_tunnel_ep.\n"
            "Import ListNotations.\nOpen Scope Z_scope.\n")
 
+IMPORTS_GEN = ("From Coq Require Import ZArith List Bool.\n"
+               "From IPV8V Require Import lib.PyErr lib.Bytes gen.G07_consts model.M07_tunnel_ep model.M07_tunnel_ep_rt "
+               "gen.G07_tunnel_ep model.M07_tunnel_ep_gen.\n"
+               "Import ListNotations.\nOpen Scope Z_scope.\n")
+
 EXIT_IPV8 = 4                      # documented flag value (oracle side; the model's comes from the translator)
 NULL = ("0.0.0.0", 0)
 QUEUE_BOUND = 100                  # the bound the property text promises ("bounded queue"; documented maxlen)
@@ -551,13 +556,18 @@ def mix_st(bc, h, s):
     return mix(h, s["next_id"])
 
 
-def path_digest(steps, cidx, bc=bytes_code):
+REAL_CALLS = ("Raw", "Tunnel", "CreateCircuit")
+
+
+def path_digest(steps, cidx, bc=bytes_code, calls_only=False):
     """mirror of M07.history_digest / dfs along one path: per step the outputs, |queue|, |circuits|; the complete
     state at the end"""
     h = 0
     for st in steps:
         h = mix(h, 7)
         for o in step_outs(st):
+            if calls_only and o[0] not in REAL_CALLS:
+                continue          # the generated code makes calls; Queued / Evicted / Dropped are the hand model's markers
             if o[0] == "Tunnel":
                 o = (o[0], o[1], cidx.get(o[2], -7), o[3], o[4], o[5])
             h = mix_out(bc, h, o)
@@ -763,7 +773,9 @@ async def _work_cases(cases):
     for (full, ops) in cases:
         steps, cidx = run_ops(ops, full)
         viol = Oracle().judge(steps, cidx)
-        out.append((case_coq(steps, cidx) + (str(path_digest(steps, cidx, bytes_full)),), viol, summarize(steps)))
+        out.append((case_coq(steps, cidx) + (str(path_digest(steps, cidx, bytes_full)),
+                                               str(path_digest(steps, cidx, bytes_full, calls_only=True))),
+                    viol, summarize(steps)))
     await asyncio.sleep(0)
     return out
 
@@ -1243,9 +1255,17 @@ def run(ctx):
         text = None
     # stage P
     proofs_ok = ctx.proofs() if text is not None else False
+    # extension: the function bodies translated from the AST (gen/G07_tunnel_ep.v); refinement and transferred theorems
+    # in props/C07x.v
+    gtext = translate_gen(ctx) if text is not None else None
+    if gtext is not None:
+        ctx.proofs(part="C07x")
     ctx.coverage["trusted_base"] = [
         "Coq 8.16.1 kernel (coqc, vm_compute); no axioms (Print Assumptions: closed)",
-        "translator tools/tr/tr_tunnel_ep.py (literal constants of TunnelEndpoint / tunnel.py -> gen/G07_consts.v)",
+        "translator tools/tr/tr_tunnel_ep.py (literal constants -> gen/G07_consts.v; the bodies of TunnelEndpoint.__init__ / "
+        "set_tunnel_community / set_anonymity / send / notify_listeners and TunnelCommunity.find_circuits -> gen/G07_tunnel_ep.v, "
+        "fail closed) and the run-time library coq/model/M07_tunnel_ep_rt.v (monad, deque, recorded calls) that gives the "
+        "generated text its meaning",
         "hand model coq/model/M07_tunnel_ep.v of TunnelEndpoint.send / set_anonymity / set_tunnel_community / "
         "notify_listeners, Community.__init__ opt-in, Circuit.state / exit_flags / hop, find_circuits; tied by this "
         "run's correspondence (harness: tools/checks/c07.py, alpha abstraction, spies on inner send / send_data / create_circuit)",
@@ -1253,6 +1273,9 @@ def run(ctx):
         "(datagram carries the tunnel prefix, goes to the first hop, packet not in clear)",
     ]
     ctx.assumptions = [
+        "outside the translated set (runtime): create_circuit adds at most one fresh EXTENDING circuit and nothing else; "
+        "send_data does not change what the endpoint reads; Circuit.state / exit_flags / hop / circuit_id / goal_hops / ctype "
+        "are the hand model's; Circuit objects are truthy; which listeners are candidates is the wrapped endpoint's business",
         "the overlay's endpoint is a TunnelEndpoint (Community.__init__ only logs a warning otherwise)",
         "the tunnel overlay's own prefix is never switched on (TunnelCommunity.__init__ switches it off)",
         "every packet of an overlay starts with the 22-byte prefix the overlay registered (ezr_pack / _prefix)",
@@ -1261,13 +1284,28 @@ def run(ctx):
     jobs = 14
     pool = multiprocessing.Pool(jobs)
     try:
-        _stage_c(ctx, r, pool, text is not None)
+        _stage_c(ctx, r, pool, text is not None, gtext is not None)
     finally:
         pool.terminate()
         pool.join()
 
 
-def _stage_c(ctx, r, pool, have_model):
+def translate_gen(ctx):
+    """stage G of the extension; returns the generated text or None (reported as broken)"""
+    try:
+        gtext = tr_tunnel_ep.write_gen()
+        ctx.extra.setdefault("generated", {})["gen/G07_tunnel_ep.v"] = len(gtext)
+        return gtext
+    except Exception as e:  # noqa  tr_expr.Unsupported or anything else: fail closed
+        ctx.broke("translator tr_tunnel_ep (function bodies) aborted", e)
+        try:
+            os.remove(tr_tunnel_ep.GEN_DEST)     # nothing may be proved or evaluated against stale definitions
+        except OSError:
+            pass
+        return None
+
+
+def _stage_c(ctx, r, pool, have_model, have_gen=False):
     t0 = time.time()
     tm = ctx.extra.setdefault("stage_wall_s", {})
     # ---- exhaustive families: digest of implementation runs vs digest computed by the model in Coq
@@ -1299,7 +1337,8 @@ def _stage_c(ctx, r, pool, have_model):
     tm["impl_histories"] = round(time.time() - t0, 1)
     coq_cases, full_obs, kinds = [], [], {}
     dist = {"raw": 0, "tunnel": 0, "create": 0, "hist_with_tunnel": 0, "hist_queue_full": 0}
-    for (full, ops), ((c_ops, c_exp, c_dig), viol, summ) in zip(cases, results):
+    gen_digs = []
+    for (full, ops), ((c_ops, c_exp, c_dig, c_gdig), viol, summ) in zip(cases, results):
         for op in ops:
             kinds[op[0]] = kinds.get(op[0], 0) + 1
         ctx.count(("hist", full, tuple(map(tuple_op, ops))), nontrivial=summ[1] > 0 or summ[3] > 0)
@@ -1311,6 +1350,7 @@ def _stage_c(ctx, r, pool, have_model):
         if viol:
             report(ctx, ops, full, viol)
         coq_cases.append((c_ops, c_dig))
+        gen_digs.append(c_gdig)
         full_obs.append(c_exp)
     for (full, ops), (_, _, summ) in list(zip(cases, results))[:3]:
         ctx.sample({"history": ops_json(ops)[:12], "real_overlays": full, "raw/tunnel/create/maxqueue": summ})
@@ -1319,10 +1359,31 @@ def _stage_c(ctx, r, pool, have_model):
     if have_model:
         # the model's digest of the whole history (all outputs, all byte strings, final state) against the
         # same digest of what the implementation did
-        mism, errs = eval_cases("run_case_digest", "Z.eqb", coq_cases, os.path.join(ctx.scratch, "hist"),
-                                "list op * Z", 150 if ctx.quick else 250)
+        shard = 150 if ctx.quick else 250
+        gen_mism = []
+        if have_gen:
+            # one pass: the hand model AND the functions generated from the source (model/M07_tunnel_ep_gen.run_gen; its
+            # digest covers the real calls and the states) against what the implementation did
+            both = [(c, "(%s, %s)" % (d, g)) for (c, d), g in zip(coq_cases, gen_digs)]
+            mism2, errs = eval_cases("(fun ops => (run_case_digest ops, gen_history_digest ops))",
+                                     "(fun a b => Z.eqb (fst a) (fst b) && Z.eqb (snd a) (snd b))", both,
+                                     os.path.join(ctx.scratch, "hist"), "list op * (Z * Z)", shard, imports=IMPORTS_GEN)
+            mism = []
+            if mism2 and not errs:       # which of the two differs
+                sub = [coq_cases[i] for i in mism2]
+                m3, errs = eval_cases("run_case_digest", "Z.eqb", sub, os.path.join(ctx.scratch, "hist2"), "list op * Z", shard)
+                mism = [mism2[j] for j in m3]
+                gen_mism = [i for i in mism2 if i not in mism]
+            if not errs:
+                ctx.coverage["traces_validated_against_generated"] = len(both) - len(gen_mism) - len(mism)
+        else:
+            mism, errs = eval_cases("run_case_digest", "Z.eqb", coq_cases, os.path.join(ctx.scratch, "hist"),
+                                    "list op * Z", shard)
         for e in errs:
             ctx.broke("model evaluation failed (histories)", e)
+        for i in gen_mism[:4]:
+            ctx.broke("correspondence: history differs between the GENERATED functions (gen/G07_tunnel_ep.v) and the implementation",
+                      json.dumps({"full": cases[i][0], "ops": ops_json(cases[i][1]), "impl": full_obs[i][:1500]}))
         for n, i in enumerate(mism[:8]):
             model_says = ""
             if n == 0:
@@ -1373,7 +1434,11 @@ def _stage_c(ctx, r, pool, have_model):
         ctx.violation("delivery/closed-endpoint", "delivery on a closed endpoint to %s" % closed,
                       {"kind": "notify", "listeners": [[1, True], [2, False]], "from_tunnel": True, "closed": True})
     if have_model:
-        mism, errs = coqrun.eval_mismatches(IMPORTS, "run_notify", "list_eqb Z.eqb", ncases, os.path.join(ctx.scratch, "ntf"),
+        mism, errs = coqrun.eval_mismatches(IMPORTS_GEN if have_gen else IMPORTS,
+                                            "(fun c => run_notify c ++ 0 :: run_notify_gen c)" if have_gen else "run_notify",
+                                            "list_eqb Z.eqb",
+                                            [(c, "(%s ++ 0 :: %s)" % (e, e)) for c, e in ncases] if have_gen else ncases,
+                                            os.path.join(ctx.scratch, "ntf"),
                                             ctype="notify_case * list Z", shard=400, jobs=4, preamble=PREAMBLE)
         for e in errs:
             ctx.broke("model evaluation failed (notify)", e)
@@ -1491,7 +1556,7 @@ def work_notify(ls, ft, open_):
 _BZ = __import__("re").compile(r"\(BZ (\d+)%nat 0x([0-9a-f]+)\)")
 
 
-def eval_cases(run, eqb, cases, scratch, ctype, shard, jobs=14, timeout=900):
+def eval_cases(run, eqb, cases, scratch, ctype, shard, jobs=14, timeout=900, imports=None):
     """coqrun.eval_mismatches with one twist: inside a shard every distinct byte string is defined once
     (Definition b<i> := BZ ...) and referred to by name, which keeps the case terms small."""
     mism, errs = [], []
@@ -1513,7 +1578,7 @@ def eval_cases(run, eqb, cases, scratch, ctype, shard, jobs=14, timeout=900):
 
     def one(g):
         start, part2, pre = g
-        return start, coqrun.eval_mismatches(IMPORTS, run, eqb, part2, os.path.join(scratch, "s%d" % start), ctype=ctype,
+        return start, coqrun.eval_mismatches(imports or IMPORTS, run, eqb, part2, os.path.join(scratch, "s%d" % start), ctype=ctype,
                                              shard=len(part2), jobs=1, timeout=timeout, preamble=pre)
     with ThreadPoolExecutor(max_workers=jobs) as ex:
         for start, (m, e) in ex.map(one, groups):
